@@ -910,9 +910,16 @@ Proof.
   cbn [map]. cbn [obs_eqb]. rewrite list_N_eqb_refl. cbn [andb]. exact IH.
 Qed.
 
+Lemma In_N_range k : forall s p, In p (N_range s k) -> s <= p < s + N.of_nat k.
+Proof.
+  induction k as [|k IH]; intros s p H; cbn [N_range] in H; [destruct H|].
+  destruct H as [<- | H]; [lia|]. apply IH in H. lia.
+Qed.
+
 Lemma positions_in_file r p : In p (positions_of r) -> in_file r p.
 Proof.
-  unfold positions_of. rewrite in_map_iff. intros (i & <- & Hi). apply in_seq in Hi.
+  unfold positions_of. intros Hf. apply filter_In in Hf. destruct Hf as [Hf _].
+  unfold all_positions in Hf. apply In_N_range in Hf.
   unfold in_file, r_len, len_N. lia.
 Qed.
 
